@@ -199,15 +199,18 @@ class Ctx:
 
     # ---------------------------------------------------------------- verdict
     def finish(self):
+        import fnmatch
         known = load_findings(self.prop)
-        open_by_key = {e["key"]: e for e in known if e.get("status") == "open"}
+        open_entries = [e for e in known if e.get("status") == "open"]
         seen_known, unknown = {}, {}
         for m in self.mismatches:
-            if m["key"] in open_by_key:
-                seen_known.setdefault(m["key"], []).append(m)
+            hit = next((e for e in open_entries if fnmatch.fnmatchcase(m["key"], e["key"])), None)
+            if hit is not None:
+                seen_known.setdefault(hit["key"], []).append(m)
             else:
                 unknown.setdefault(m["key"], []).append(m)
-        for key, e in open_by_key.items():
+        for e in open_entries:
+            key = e["key"]
             if key in seen_known:
                 print("KNOWN-FINDING: property=%s %s [key=%s, %d event(s) in this run]"
                       % (self.prop, e["what"], key, len(seen_known[key])))
@@ -304,8 +307,9 @@ def replay(prop, path):
         mod = importlib.import_module(rp["driver"])
         case = getattr(mod, rp["exec_fn"])(case)
     found = ctx.judge(rp["module"], rp["cfg"], [case], rp.get("family", "replay"))
+    import fnmatch
     keys = sorted({m["key"] for m in found})
-    if rp["key"] in keys:
+    if any(fnmatch.fnmatchcase(k, rp["key"]) for k in keys):
         print("REPLAY: property=%s key=%s still rejected (%s)" % (prop, rp["key"], found[0]["detail"]))
         return 1
     if keys:
